@@ -15,6 +15,22 @@ use crate::{
     },
 };
 
+/// Removes the in-flight marker of a candidates request when the request
+/// finishes, and also when its future is dropped before completion (e.g.
+/// because the solve was cancelled), and wakes up everyone waiting for it.
+struct InFlightGuard<'a> {
+    in_flight: &'a RefCell<HashMap<NameId, Rc<Event>>>,
+    package_name: NameId,
+}
+
+impl Drop for InFlightGuard<'_> {
+    fn drop(&mut self) {
+        if let Some(notifier) = self.in_flight.borrow_mut().remove(&self.package_name) {
+            notifier.notify(usize::MAX);
+        }
+    }
+}
+
 /// Keeps a cache of previously computed and/or requested information about
 /// solvables and version sets.
 pub struct SolverCache<D: DependencyProvider> {
@@ -103,15 +119,24 @@ impl<D: DependencyProvider> SolverCache<D> {
                         // Found an in-flight request, wait for that request to finish and return
                         // the computed result.
                         in_flight.listen().await;
-                        self.package_name_to_candidates
-                            .get_copy(&package_name)
-                            .expect("after waiting for a request the result should be available")
+                        match self.package_name_to_candidates.get_copy(&package_name) {
+                            Some(id) => id,
+                            // The request we were waiting for was abandoned before it
+                            // produced a result, start over.
+                            None => {
+                                return Box::pin(self.get_or_cache_candidates(package_name)).await;
+                            }
+                        }
                     }
                     None => {
                         // Prepare an in-flight notifier for other requests coming in.
                         self.package_name_to_candidates_in_flight
                             .borrow_mut()
                             .insert(package_name, Rc::new(Event::new()));
+                        let _in_flight_guard = InFlightGuard {
+                            in_flight: &self.package_name_to_candidates_in_flight,
+                            package_name,
+                        };
 
                         // Otherwise we have to get them from the DependencyProvider
                         let candidates = self
